@@ -61,6 +61,9 @@ def _run_world(plan: dict[str, Any], tr: Trace) -> Any:
 def execute(plan: dict[str, Any], *, keep_events: bool = False) -> RunResult:
     res = RunResult()
     tr = Trace()
+    from . import oracles
+
+    oracles.GRAD_MODE = "no_grad"  # process-global switch of the harness: every run starts equal
     try:
         with simulation(plan["hash_seed"]):
             summary = _run_world(plan, tr)
